@@ -42,6 +42,26 @@ def _run_one(mod, R, rec, subst, fill):
     return dict(status="passed", passed=E.passed, ret=repr(ret)[:200])
 
 
+def random_search(mod, R, rec, spec):
+    import os, time, copy
+    t0 = time.time()
+    tries = 0
+    while time.time() - t0 < spec.get("seconds", 40):
+        w = dict(rec["witness"])
+        for name, nbytes in spec["inputs"].items():
+            if name in w or spec.get("always"):
+                w[name] = os.urandom(nbytes).hex()
+        for name, (lo, hi) in spec.get("ints", {}).items():
+            w[name] = lo + int.from_bytes(os.urandom(8), "big") % (hi - lo + 1)
+        tries += 1
+        r = _run_one(mod, R, dict(rec, witness=w), False, 0)
+        if r["status"] == "reproduced":
+            r["random_search_tries"] = tries
+            r["witness_found"] = w
+            return r
+    return None
+
+
 def main():
     prop_id = sys.argv[1]
     batch = "--batch" in sys.argv
@@ -55,6 +75,10 @@ def main():
         print(json.dumps(dict(results=[run_one(mod, R, r) for r in data["batch"]])))
     else:
         r = run_one(mod, R, data)
+        if r["status"] == "passed" and getattr(mod, "RANDOM_REPLAY", None):
+            # the witness depends on a quantity the group model abstracts (e.g. an x coordinate with a leading zero byte):
+            # look for a concrete instance by re-drawing the listed byte inputs at random, for a bounded time
+            r = random_search(mod, R, data, mod.RANDOM_REPLAY) or r
         if r["status"] == "passed" and data.get("oracle"):
             # the witness depends on hash outputs the solver chose: replay once more with exactly
             # those outputs substituted for the hash primitives (from outside the repository)
